@@ -4,6 +4,7 @@ import Sgz.Model.Config
 import Sgz.Model.Pipeline
 import Sgz.Model.Writer
 import Sgz.Model.IO
+import Sgz.Model.Cache
 /-!
 Line-protocol driver over the executable model (`Sgz/Model`, Mathlib-free).  One request per line, one answer per
 line.  The Python harness sends the same request to the real implementation and diffs canonical answers.
@@ -187,7 +188,67 @@ def handleHashFeed (ws : List String) : String :=
     | none => "bad-op"
   | none => "bad-op"
 
+/-- order-sensitive digest `Σ (i+1)·(xᵢ+1) mod 2³¹−1` (the harness computes the same with numpy) -/
+def digestNat (xs : List Nat) : Nat :=
+  (xs.foldl (fun (acc : Nat × Nat) v => (acc.1 + 1, (acc.2 + (acc.1 + 1) * (v + 1)) % 2147483647)) (0, 0)).2
+
+def showRBrief (r : R) : String :=
+  match r with
+  | .error e => s!"err {e}"
+  | .ok o =>
+    let shape := ",".intercalate (o.arr.shape.map toString)
+    let fs := ",".intercalate (o.fetches.map fun (a, b) => s!"{a}:{b}")
+    s!"ok {shape} {digestNat o.arr.flat} {fs}"
+
+def parseCacheOp (ws : List String) : Option (Nat × Cache.Op) :=
+  match ws with
+  | rid :: rest =>
+    match rid.toNat? with
+    | none => none
+    | some rid =>
+      match rest with
+      | ["il", k] => k.toInt?.map fun k => (rid, .il k)
+      | ["xl", k] => k.toInt?.map fun k => (rid, .xl k)
+      | ["zs", k] => k.toInt?.map fun k => (rid, .zs k)
+      | ["vol"] => some (rid, .vol)
+      | ["close"] => some (rid, .close)
+      | "sub" :: r =>
+        match ints r with
+        | some [a, b, c, d, e, f] => some (rid, .sub a b c d e f)
+        | _ => none
+      | "subp" :: r =>
+        match ints r with
+        | some [a, b, c, d] => some (rid, .subp a b c d)
+        | _ => none
+      | "tr" :: r =>
+        match ints r with
+        | some [t, a, b] => some (rid, .tr t a b)
+        | _ => none
+      | _ => none
+  | [] => none
+
+/-- `hist <geo> <R> <preload_0> <cap_0> … ; <rid> <op> … ; …`: a history of read calls over R readers of one file;
+answer: per call the outcome (status, shape, digest of the array) and the range reads issued, `;`-separated -/
+def handleHist (line : String) : String :=
+  match line.splitOn ";" with
+  | [] => "bad-op"
+  | head :: ops =>
+    let ws := (head.trimAscii.toString.splitOn " ").filter (· ≠ "")
+    match ints (ws.take 7), (ws.drop 7) with
+    | some gs, nr :: cfgs =>
+      match mkGeo gs, nr.toNat?, ints cfgs with
+      | some g, some _, some cs =>
+        let pre := fun (rid : Nat) => (cs.getD (2 * rid) 0) == 1
+        let cap := fun (rid : Nat) => (cs.getD (2 * rid + 1) 1).toNat
+        let parsed := ops.map fun o => parseCacheOp ((o.trimAscii.toString.splitOn " ").filter (· ≠ ""))
+        if parsed.any (·.isNone) then "bad-op" else
+        let h := parsed.filterMap id
+        " ; ".intercalate ((Cache.run g { preload := pre, cap := cap } Cache.St.init h).map showRBrief)
+      | _, _, _ => "bad-op"
+    | _, _ => "bad-op"
+
 def handle (line : String) : String :=
+  if line.startsWith "hist " then handleHist (line.drop 5).toString else
   match (line.trimAscii.toString.splitOn " ").filter (· ≠ "") with
   | "read" :: rest => handleRead rest
   | "ver" :: rest => handleVer rest
